@@ -123,6 +123,9 @@ class ResetInterp:
                 v = cx.env.get(x.id)
                 if isinstance(v, tuple) and v[0] == 'aff':
                     return v[1]
+                if isinstance(v, tuple) and v[0] == 'sscalar' and \
+                        x.id in getattr(cx, 'scalar_affs', {}):
+                    return cx.scalar_affs[x.id]
             if isinstance(x, ast.BinOp) and isinstance(x.op, ast.FloorDiv) and \
                     isinstance(x.right, ast.Constant) and x.right.value == 2:
                 a = self.aff(x.left, cx)
@@ -598,6 +601,21 @@ class ResetInterp:
                 for j, e in enumerate(tg.elts):
                     if isinstance(e, ast.Name):
                         cx.env[e.id] = ('sscalar', sid, j, src(base_e))
+                # elements of a literal list of integers (`[1, shape.width - 2]`): each drawn value
+                # lies between the least and the greatest element (not every value in between
+                # is possible: the bound is not exact, so it only ever proves)
+                if isinstance(base_e, (ast.List, ast.Tuple)) and base_e.elts:
+                    forms = [self.aff(x, cx) for x in base_e.elts]
+                    if all(f_ is not None for f_ in forms):
+                        lo = next((a for a in forms if all(cx.le(a, b) for b in forms)), None)
+                        hi = next((a for a in forms if all(cx.le(b, a) for b in forms)), None)
+                        if lo is not None and hi is not None:
+                            memo = getattr(cx, 'scalar_affs', None)
+                            if memo is None:
+                                memo = cx.scalar_affs = {}
+                            for e in tg.elts:
+                                if isinstance(e, ast.Name):
+                                    memo[e.id] = cx.newsym(e.id, lo, hi, exact=False)
                 return None
             if isinstance(tg, ast.Name):
                 sid = len(cx.samples)
